@@ -29,7 +29,8 @@ def eval_tree(ctx, tree, on_node=None, *, prop, exc_is_violation=True, allow=(Va
                     on_node(t, v, kids)
 
     try:
-        root = W.build(tree, hook)
+        # half of the cases evaluate equal leaves to one shared object (aliasing between operands)
+        root = W.build(tree, hook, {} if (ctx.cases % 2 == 0) else None)
     except CaseTimeout:
         raise
     except W.LeafError as e:
@@ -76,4 +77,61 @@ def run_trees(ctx, per_case, *, depth=(1, 4), arbitrary=False, hostile_p=0.3, cl
                 closure.append(tree)
                 if len(closure) > 200:
                     closure.pop(rnd.randrange(len(closure)))
+    ctx.current_case = None
+
+
+def spec_laws(a, b, c):
+    """(name, lhs thunk, rhs thunk | None) - the Boolean-algebra identities of C14, plus compound forms in
+    which the same sub-results meet again (aliasing between operands that descend from one object)."""
+    yield "commutative-and", lambda: a & b, lambda: b & a
+    yield "commutative-or", lambda: a | b, lambda: b | a
+    yield "associative-and", lambda: (a & b) & c, lambda: a & (b & c)
+    yield "associative-or", lambda: (a | b) | c, lambda: a | (b | c)
+    yield "idempotent-and", lambda: a & a, lambda: a
+    yield "idempotent-or", lambda: a | a, lambda: a
+    yield "absorption-and", lambda: a & (a | b), lambda: a
+    yield "absorption-or", lambda: a | (a & b), lambda: a
+    yield "distributive-and", lambda: a & (b | c), lambda: (a & b) | (a & c)
+    yield "distributive-or", lambda: a | (b & c), lambda: (a | b) & (a | c)
+    yield "involution", lambda: ~~a, lambda: a
+    yield "de-morgan-and", lambda: ~(a & b), lambda: ~a | ~b
+    yield "de-morgan-or", lambda: ~(a | b), lambda: ~a & ~b
+    yield "complement-and", lambda: a & ~a, None
+    yield "complement-or", lambda: a | ~a, None
+    yield "de-morgan-distributive-and", lambda: ~(a & (b | c)), lambda: ~(a & b) & ~(a & c)
+    yield "de-morgan-distributive-or", lambda: ~(a | (b & c)), lambda: ~(a | b) | ~(a | c)
+    yield "difference", lambda: (a & ~b) | (a & b), lambda: a
+    yield "symmetric-difference", lambda: (a & ~b) | (b & ~a), lambda: (a | b) & ~(a & b)
+
+
+def small_scope_leaves():
+    from ..workloads.specs import hash_twin
+
+    vals = ["1", "2", hash_twin("1")]
+    leaves = [f"{op}{v}" for v in vals for op in (">=", ">", "<=", "<", "==", "!=")] + ["", "<empty>"]
+    return leaves
+
+
+def small_scope_triples(ctx, per_triple):
+    """Every ordered triple of leaf specifiers over a 2-version alphabet (plus a hash twin of one of
+    them), each leaf parsed ONCE per shard so that the very same objects take part in thousands of
+    operations (shared sub-results, per-object caches, hash-keyed tables)."""
+    import itertools
+
+    from dep_logic.specifiers import parse_version_specifier
+
+    texts = small_scope_leaves()
+    objs = [parse_version_specifier(t) for t in texts]
+    triples = list(itertools.product(range(len(objs)), repeat=3))
+    step = ctx.nshards * (1 if ctx.tier == "thorough" else 10)
+    off = ctx.shard if ctx.tier == "thorough" else ctx.shard + (ctx.seed % 10) * ctx.nshards
+    n = 0
+    for idx in range(off, len(triples), step):
+        i, j, k = triples[idx]
+        ctx.cases += 1
+        n += 1
+        ctx.current_case = {"kind": "small-triple", "texts": [texts[i], texts[j], texts[k]]}
+        ctx.guarded(20.0, per_triple, (objs[i], objs[j], objs[k]), (texts[i], texts[j], texts[k]))
+    ctx.extra["small_scope_triples"] = n
+    ctx.extra["small_scope_alphabet"] = len(texts)
     ctx.current_case = None
